@@ -587,6 +587,8 @@ pub struct Runner<'a> {
     pub pinned: std::collections::HashSet<Vec<u8>>,
     /// some explicit timestamp in [u64::MAX-2^20, u64::MAX) was accepted since (re)open
     pub near_max_accepted: bool,
+    /// what a replay needs to regenerate this program
+    pub replay_doc: Value,
 }
 
 fn residency(store: &FeoxStore, k: &[u8]) -> &'static str {
@@ -635,6 +637,11 @@ impl<'a> Runner<'a> {
             value_checks: 0,
             pinned: Default::default(),
             near_max_accepted: false,
+            replay_doc: json!({
+                "engine": "model", "config": spec.cfg.label(), "seed": spec.seed, "index": spec.index, "steps": spec.steps,
+                "focus": format!("{:?}", spec.focus), "flush_every": spec.flush_every, "reopen_at": spec.reopen_at, "extreme_ts": spec.extreme_ts,
+                "property": spec.prop,
+            }),
         })
     }
 
@@ -664,7 +671,9 @@ impl<'a> Runner<'a> {
         let before = self.store().verif_snapshot();
         let hits_before = self.store().stats().cache_hits;
         let (expected, effects) = predict(&self.model, op);
+        INFLIGHT.lock().insert(std::thread::current().id(), (std::time::Instant::now(), op.brief(), self.replay_doc.clone()));
         let actual = exec(self.store(), op);
+        INFLIGHT.lock().remove(&std::thread::current().id());
         self.calls += 1;
         *self.stats.entry((op.name().to_string(), res, expected.class())).or_insert(0) += 1;
         if res == "cached" && matches!(op, Op::Get { .. }) && self.store().stats().cache_hits > hits_before {
@@ -1176,6 +1185,12 @@ pub fn run(args: &Args) -> Report {
     report
 }
 
+/// Calls currently executing inside the store, per program thread: (start, call, replay document of the program).
+static INFLIGHT: std::sync::LazyLock<parking_lot::Mutex<std::collections::HashMap<std::thread::ThreadId, (std::time::Instant, String, Value)>>> =
+    std::sync::LazyLock::new(|| parking_lot::Mutex::new(std::collections::HashMap::new()));
+/// A single sequential call on an idle-but-for-us store that has not returned after this long never will.
+const CALL_DEADLINE: std::time::Duration = std::time::Duration::from_secs(90);
+
 pub fn run_specs(specs: Vec<ProgSpec>, report: &mut Report, threads: usize, known: &[String]) {
     let known: Vec<String> = known.to_vec();
     let scratch = storeutil::Scratch(storeutil::scratch_dir("model"));
@@ -1204,13 +1219,38 @@ pub fn run_specs(specs: Vec<ProgSpec>, report: &mut Report, threads: usize, know
             }
         }));
     }
+    // the program threads are polled rather than joined: a call that never returns (a livelock inside the
+    // store) must become a verdict, not a watchdog timeout
+    let mut hung: Option<(String, f64, Value)> = None;
+    while handles.iter().any(|h| !h.is_finished()) {
+        std::thread::sleep(std::time::Duration::from_millis(50));
+        if let Some((_, (t0, call, doc))) = INFLIGHT.lock().iter().find(|(_, (t0, _, _))| t0.elapsed() > CALL_DEADLINE) {
+            hung = Some((call.clone(), t0.elapsed().as_secs_f64(), doc.clone()));
+        }
+        if hung.is_some() {
+            stop.store(true, std::sync::atomic::Ordering::Relaxed);
+            break;
+        }
+    }
+    if let Some((call, secs, doc)) = hung {
+        let name = call.split(|c: char| !c.is_ascii_alphanumeric() && c != '_').next().unwrap_or("").to_string();
+        let m = std::mem::replace(&mut *merged.lock(), Report::new("model", ""));
+        report.merge(m);
+        report.violation(
+            format!("model:call-never-returned:{name}"),
+            format!("the sequential call {call} has not returned after {secs:.0} s on a store nobody else is using (the calling thread is still running inside the store)"),
+            doc,
+        );
+        return; // the stuck thread is abandoned; the process exits after writing the report
+    }
     for h in handles {
         if h.join().is_err() {
             report.inconclusive.push("HARNESS-PANIC: a model program thread panicked (its results are lost)".into());
         }
     }
-    let m = std::sync::Arc::try_unwrap(merged).ok().unwrap().into_inner();
+    let m = std::mem::replace(&mut *merged.lock(), Report::new("model", ""));
     report.merge(m);
+    drop(scratch);
 }
 
 fn replay(path: &str, mut report: Report) -> Report {
@@ -1230,8 +1270,10 @@ fn replay(path: &str, mut report: Report) -> Report {
         prop: v["property"].as_str().unwrap_or("").to_string(),
     };
     let scratch = storeutil::Scratch(storeutil::scratch_dir("replay"));
+    let _ = &scratch;
     for _ in 0..8 {
-        if run_program(&spec, &scratch.0, &mut report).is_some() {
+        run_specs(vec![spec.clone()], &mut report, 1, &[]);
+        if !report.violations.is_empty() {
             break;
         }
     }
